@@ -51,3 +51,8 @@ Check (C18_stack_tables_consistent :
 
 Check (C18_sites_all_covered :
   forall key line, In (key, line) sites -> covered key = true).
+
+Check (C18_thunk_copy_fresh :
+  forall sh,
+  get_state (copy_shape sh) <> Blackholed /\ get_locked (copy_shape sh) = false /\
+  copy_shape (copy_shape sh) = copy_shape sh).
